@@ -211,9 +211,28 @@ def run_trans(ctx, rng, idx):
     from vf.monitor import Frozen
     form = ['1d', '2d', 'ragged'][int(rng.integers(0, 3))]
     nst = int(rng.integers(1, 4))
-    dtype = [np.int16, np.int64, np.int32][int(rng.integers(0, 3))]
+    dtype = [np.int16, np.int64, np.int32, np.int8][int(rng.integers(0, 4))]
+    # long trajectories: frame numbers beyond the range of the (narrow)
+    # element type the states are stored in (int16 from the rotamer code)
+    long_ = rng.random() < 0.05
 
     def seq(L, flat):
+        if long_ and not flat:
+            L = max(L, int(rng.integers(33000, 70000)))
+            cps = np.sort(rng.choice(np.arange(1, L), size=int(
+                rng.integers(1, 12)), replace=False))
+            if rng.random() < 0.7:
+                cps[-1] = int(rng.integers(32769, L))
+                cps = np.sort(np.unique(cps))
+            vals = [int(rng.integers(0, max(nst, 2)))]
+            for _ in cps:
+                vals.append((vals[-1] + 1 + int(rng.integers(0, max(
+                    nst - 1, 1)))) % max(nst, 2))
+            out = np.empty(L, dtype=dtype)
+            edges = [0] + [int(c) for c in cps] + [L]
+            for v, a_, b_ in zip(vals, edges[:-1], edges[1:]):
+                out[a_:b_] = v
+            return out
         if flat:
             return np.full(L, int(rng.integers(0, nst)), dtype=dtype)
         if rng.random() < 0.5:
@@ -236,7 +255,12 @@ def run_trans(ctx, rng, idx):
             flatmask[0] = True
         if form == '2d':
             L = int(rng.integers(1, 40))
-            rows = [seq(L, f) for f in flatmask]
+            if long_:
+                L = int(rng.integers(33000, 70000))
+                flatmask[:] = False
+                ntr = min(ntr, 3)
+                flatmask = flatmask[:ntr]
+            rows = [seq(L, f)[:L] for f in flatmask]
             arg = np.array(rows)
         else:
             rows = [seq(int(rng.integers(1, 40)), f) for f in flatmask]
@@ -246,6 +270,8 @@ def run_trans(ctx, rng, idx):
             'lens': [len(r) for r in rows]}
     ctx.describe(desc)
     exp = [np.where(r[1:] != r[:-1])[0] for r in rows]
+    if long_:
+        ctx.count('long_state_sequences')
     fz = Frozen(arg)
     try:
         tt = disorder.transitions(arg)
@@ -293,7 +319,7 @@ def run_trans(ctx, rng, idx):
     # the per-trajectory table built on top of it
     if form != '1d' and idx % 2 == 0:
         nfeat = int(rng.integers(1, 4))
-        rt = [np.stack([seq(len(r), rng.random() < 0.3)
+        rt = [np.stack([seq(len(r), rng.random() < 0.3)[:len(r)]
                         for _ in range(nfeat)], axis=1).astype(np.int16)
               for r in rows]
         try:
